@@ -9,6 +9,9 @@
  *         F pgno subno level 2  digest only: {"ok":..,"pgno","subno","h":<hash of all cells, colours, links>}
  *         F pgno subno level 3  compact rows: "rows":["<40 x uuuuffbbfcs hex>",...] (same projection of blank cells)
  *         V                     also listen to NETWORK / NETWORK_ID / LOCAL_TIME / PROG_ID events; P then prints "ev2":[[type,a,b],...]
+ * second C02/C03 round (nothing above changes):
+ *         F pgno subno level 4  like the plain form with the opacity as seventh number of every cell (boxing)
+ *         N pgno subno          vbi_fetch_vt_page(Level 1.5, 25 rows, navigation ON) -> {"ok":..,"pgno","subno","nav":[[pgno,subno] x 6]}
  */
 #include <stdio.h>
 #include <stdlib.h>
@@ -124,6 +127,22 @@ int main(void)
 				}
 				printf("]");
 				vbi_unref_page(&pg);
+			} else if (ok && brief == 4) {
+				printf(",\"pgno\":%d,\"subno\":%d,\"nrows\":%d,\"ncols\":%d,\"rows\":[", pg.pgno, pg.subno, pg.rows, pg.columns);
+				for (r = 0; r < pg.rows; r++) {
+					printf("%s[", r ? "," : "");
+					for (c = 0; c < pg.columns; c++) {
+						vbi_char *a = &pg.text[r * pg.columns + c];
+						if (a->unicode == 0x20 || a->unicode == 0xEE20 || a->unicode == 0xEE00)
+							printf("%s[32,0,%u,0,0,%u,%u]", c ? "," : "", a->background, a->size, a->opacity);
+						else
+							printf("%s[%u,%u,%u,%u,%u,%u,%u]", c ? "," : "", a->unicode, a->foreground, a->background,
+							       a->flash, a->conceal, a->size, a->opacity);
+					}
+					printf("]");
+				}
+				printf("]");
+				vbi_unref_page(&pg);
 			} else if (ok) {
 				printf(",\"pgno\":%d,\"subno\":%d,\"nrows\":%d,\"ncols\":%d,\"rows\":[", pg.pgno, pg.subno, pg.rows, pg.columns);
 				for (r = 0; r < (brief ? 0 : pg.rows); r++) {
@@ -140,6 +159,20 @@ int main(void)
 					printf("]");
 				}
 				printf("],\"nav\":[");
+				for (c = 0; c < 6; c++) printf("%s[%d,%d]", c ? "," : "", pg.nav_link[c].pgno, pg.nav_link[c].subno);
+				printf("]");
+				vbi_unref_page(&pg);
+			}
+			printf("}\n");
+		} else if (line[0] == 'N') {
+			unsigned pgno, subno; int ok, c;
+			vbi_page pg;
+			sscanf(line + 1, "%x %x", &pgno, &subno);
+			memset(&pg, 0, sizeof pg);
+			ok = vbi_fetch_vt_page(vbi, &pg, pgno, subno, VBI_WST_LEVEL_1p5, 25, 1);
+			printf("{\"ok\":%d", ok);
+			if (ok) {
+				printf(",\"pgno\":%d,\"subno\":%d,\"nav\":[", pg.pgno, pg.subno);
 				for (c = 0; c < 6; c++) printf("%s[%d,%d]", c ? "," : "", pg.nav_link[c].pgno, pg.nav_link[c].subno);
 				printf("]");
 				vbi_unref_page(&pg);
